@@ -13,8 +13,9 @@ SCRATCH = os.environ.get("VERIF_SCRATCH", "/tmp/verif-scratch/repo")
 
 def mutants_for(pid):
     out = []
-    sd = os.path.join(VERIF, "seeded")
-    if os.path.isdir(sd):
+    for sd in (os.path.join(VERIF, "seeded"), os.path.join(VERIF, "selftest")):
+        if not os.path.isdir(sd):
+            continue
         for d in sorted(os.listdir(sd)):
             mp = os.path.join(sd, d, "meta.json")
             pp = os.path.join(sd, d, "patch.diff")
